@@ -211,4 +211,20 @@ theorem load2_inv {s : St} (h : Start s) (sysOk : Bool) :
         · intro f' h' _; simp at h'; subst h'; rfl
         · intro f' h' hs; simp at h'; subst h'; dsimp only at hs; omega
 
+/-- noting the time BEFORE reading keeps the invariant whatever lands in the window of `reload` -/
+theorem loadGate_inv {s : St} (h : Start s) (sysOk readLate : Bool) (f : File) (hf : s.file = some f)
+    (hfr : s.dbTime ≤ f.mtime) : Inv (loadGate true readLate (load true sysOk s false)) := by
+  have hc := h.clock
+  have hfl := h.flt f hf
+  have e0 : load true sysOk s false = { s with i0 := ⟨some f.mtime, f.content⟩ } := by
+    simp [load, fresh, hf, St.setInst, hfr]
+  rw [e0]
+  simp only [loadGate, hf, step]
+  refine ⟨⟨f.mtime, rfl, by dsimp only; omega⟩, ⟨f.mtime, by simp, by dsimp only; omega⟩, ?_, ?_, ?_, ?_, ?_, by dsimp only; omega⟩
+  · intro f' h'; simp at h'; subst h'; dsimp only; omega
+  · intro f' h' _; simp at h'; subst h'; rfl
+  · intro f' h' hs; simp at h'; subst h'; dsimp only at hs; omega
+  · intro hs; simp [inSync] at hs; omega
+  · intro hs; simp [inSync] at hs; omega
+
 end EupsModel.CacheSync
